@@ -274,6 +274,16 @@ impl Oracle {
             let v = req.args.first().cloned().unwrap_or_else(|| "null".into());
             return CallServiceResult { ret_code: 0, result: v };
         }
+        if let Some(plan) = f.strip_prefix("route") {
+            // hop-by-hop route discovery: the k-th answer names the (k+1)-th peer of the plan; the last one is marked done
+            let plan: Vec<char> = plan.chars().collect();
+            let n = req.args_json().first().and_then(|a| a["n"].as_i64()).map(|n| n + 1).unwrap_or(0) as usize;
+            let done = n >= plan.len();
+            let target = if done { peer_name.to_string() } else { plan[n].to_string() };
+            let id = self.ids.get(&target).cloned().unwrap_or(target);
+            let v = json!({"p": peer_name, "f": f, "n": n, "peer": id, "done": done});
+            return CallServiceResult { ret_code: 0, result: v.to_string() };
+        }
         let mut v = json!({"p": peer_name, "f": f, "a": req.args_json()});
         if f.starts_with("rec") {
             // bounded recursion: depth of the value = depth of the first argument + 1
